@@ -35,7 +35,7 @@ class C11(BaseCheck):
   REQUIRED_ANCHORS = ANCHORS
   REQUIRED_CLASSES = ('thriftmux', 'kafka', 'adv:duplicate-reply', 'adv:unknown-tag', 'adv:reserved-tag-1',
                       'adv:tag-0', 'adv:huge-tag', 'adv:bitflip-tag', 'error-frame-replies', 'kafka:timeouts', 'tagpool:exhausted', 'tagpool:get-after-refusal', 'direct:bare-messages', 'direct:expired-while-opening', 'direct:retry-from-reply-handler', 'direct:answered-after-expiry-in-queue', 'timeout-before-send', 'timeout-after-send', 're-open',
-                      'tag-reuse', 'yielding-log-handler')
+                      'tag-reuse', 'yielding-log-handler', 'direct:reply-handler-yields', 'direct:answered-twice-handler-yields')
   ASSUMPTIONS = ('a tag counts as answered when the client has read the last byte of any R-frame carrying it '
                  '(known from the simulated socket\'s read offsets)',)
   QUICK_CASES = 720
@@ -284,12 +284,17 @@ class C11(BaseCheck):
       return
 
     retried = []
+    slow_handler = (not retry) and rng.random() < 0.5
 
     class Term(ClientMessageSink):
       def AsyncProcessRequest(self, *a):
         raise NotImplementedError()
 
       def AsyncProcessResponse(self, sink_stack, context, stream, msg):
+        if slow_handler and rng.random() < 0.5:
+          # a caller whose reply handler takes its time (and yields) before it returns to the transport
+          classes.add('direct:reply-handler-yields')
+          gevent.sleep(rng.choice([0.0, 0.004, 0.02]))
         if retry and context is not None and msg.error is not None and not context.get('retried'):
           # same message object, same connection, synchronously from inside the reply callback
           context['retried'] = True
@@ -317,6 +322,15 @@ class C11(BaseCheck):
         seen = [q['tag'] for q in srv.requests if q['conn'] == conn.id]
         t = max(seen or [1]) + rng.choice([1, 1, 2])       # queued, not written yet (or never issued)
         conn.write(mc.frame(mc.R_DISPATCH, t, mc.rdispatch_body(mc.ST_ERROR, [], b'early')), 0.0, None, 'adv:%d' % t)
+      if slow_handler and rng.random() < 0.6 and srv.sim.conns:
+        # the peer answers a tag that is in flight twice: a forged reply now, its own follows
+        conn = srv.sim.conns[-1]
+        inflight = [q['tag'] for q in srv.requests if q['conn'] == conn.id and q.get('reply_vt') is None or
+                    (q['conn'] == conn.id and q.get('reply_vt', 0) > env.now)]
+        if inflight:
+          t = rng.choice(inflight)
+          classes.add('direct:answered-twice-handler-yields')
+          conn.write(mc.frame(mc.R_DISPATCH, t, mc.rdispatch_body(mc.ST_ERROR, [], b'twice')), 0.0, None, 'adv:%d' % t)
       env.advance(rng.choice([0.0, 0.005, 0.03]))
     srv.sim.send_delay = None
     env.advance(1.0)
